@@ -49,23 +49,25 @@ def AlreadyReceivedV1 (f : RecvV1) (ch : ChanEnd) : Prop :=
     chain's own height and time strictly before the timeout; the client Active with a consensus state
     at the proof height and the delay periods passed; and the counterparty's store holding, at the
     proof height, exactly `CommitPacket(packet)` under exactly
-    `PacketCommitmentKey(sourcePort, sourceChannel, sequence)` -/
+    `PacketCommitmentKey(sourcePort, sourceChannel, sequence)` in the store the connection names as the
+    counterparty's prefix -/
 def ProvenUnexpiredV1 (f : RecvV1) (ch : ChanEnd) (cn : ConnEnd) : Prop :=
   f.proofEmpty = false ∧ f.env.signerOK = true ∧ f.pkt.basic = none ∧ f.env.sigOK = true ∧ f.route = true ∧
   ChannelOpenFromCounterpartyV1 f ch cn ∧
   f.pkt.timeout.elapsed f.env.self (UInt64.ofNat f.env.nowNs) = false ∧
+  cn.cpPrefix ≠ [] ∧
   ClientReady f.env f.client f.proof cn.delay (Delay.getBlockDelay cn.delay f.maxTimePerBlock) ∧
-  f.proof.proves f.key (commitV1 H f.pkt.committed) = true
+  f.proof.proves (pathV1 cn.cpPrefix f.key) (commitV1 H f.pkt.committed) = true
 
 /-- **v1 success.**  A receive transaction succeeds (receipt / nextSequenceRecv written, application
     called) exactly when the explicit conjunction holds. -/
 theorem recv_v1_success_iff (f : RecvV1) :
     recvV1 H f = .ok ↔ ∃ ch cn, ProvenUnexpiredV1 H f ch cn ∧ FreshV1 f ch := by
-  simp only [recvV1, replayV1, check_ok, need_ok, pass_ok, verifyMembership_none_iff, Bool.not_eq_true',
+  simp only [recvV1, replayV1, check_ok, need_ok, pass_ok, verifyV1_none_iff, Bool.not_eq_true',
     decide_eq_true_eq, decide_eq_false_iff_not, ProvenUnexpiredV1, ChannelOpenFromCounterpartyV1, FreshV1]
   constructor
-  · rintro ⟨h1, h2, h3, h4, h5, ch, hch, h6, h7, h8, cn, hcn, h9, h10, ⟨h11, h12⟩, h13, h14⟩
-    refine ⟨ch, cn, ⟨h1, h2, h3, h4, h5, ⟨hch, hcn, h6, h9, h7, h8⟩, h10, h11, h12⟩, h13, ?_⟩
+  · rintro ⟨h1, h2, h3, h4, h5, ch, hch, h6, h7, h8, cn, hcn, h9, h10, ⟨h0, h11, h12⟩, h13, h14⟩
+    refine ⟨ch, cn, ⟨h1, h2, h3, h4, h5, ⟨hch, hcn, h6, h9, h7, h8⟩, h10, h0, h11, h12⟩, h13, ?_⟩
     by_cases hu : ch.ordering = ORDER_UNORDERED
     · left
       simp only [hu, if_true] at h14
@@ -82,8 +84,8 @@ theorem recv_v1_success_iff (f : RecvV1) :
         · simp only [hlt, if_false, check_ok, decide_eq_true_eq] at hk
           rw [hn, hk.1]
       · simp [ho] at h14
-  · rintro ⟨ch, cn, ⟨h1, h2, h3, h4, h5, ⟨hch, hcn, h6, h9, h7, h8⟩, h10, h11, h12⟩, h13, h14⟩
-    refine ⟨h1, h2, h3, h4, h5, ch, hch, h6, h7, h8, cn, hcn, h9, h10, ⟨h11, h12⟩, h13, ?_⟩
+  · rintro ⟨ch, cn, ⟨h1, h2, h3, h4, h5, ⟨hch, hcn, h6, h9, h7, h8⟩, h10, h0, h11, h12⟩, h13, h14⟩
+    refine ⟨h1, h2, h3, h4, h5, ch, hch, h6, h7, h8, cn, hcn, h9, h10, ⟨h0, h11, h12⟩, h13, ?_⟩
     rcases h14 with ⟨hu, hr⟩ | ⟨ho, hn⟩
     · simp [hu, hr]
     · have hne : ¬ (ORDER_ORDERED = ORDER_UNORDERED) := by decide
@@ -94,11 +96,11 @@ theorem recv_v1_success_iff (f : RecvV1) :
     `VerifyPacketCommitment`). -/
 theorem recv_v1_noop_iff (f : RecvV1) :
     recvV1 H f = .noop ↔ ∃ ch cn, ProvenUnexpiredV1 H f ch cn ∧ AlreadyReceivedV1 f ch := by
-  simp only [recvV1, replayV1, check_noop, need_noop, pass_noop, verifyMembership_none_iff, Bool.not_eq_true',
+  simp only [recvV1, replayV1, check_noop, need_noop, pass_noop, verifyV1_none_iff, Bool.not_eq_true',
     decide_eq_true_eq, decide_eq_false_iff_not, ProvenUnexpiredV1, ChannelOpenFromCounterpartyV1, AlreadyReceivedV1]
   constructor
-  · rintro ⟨h1, h2, h3, h4, h5, ch, hch, h6, h7, h8, cn, hcn, h9, h10, ⟨h11, h12⟩, h13, h14⟩
-    refine ⟨ch, cn, ⟨h1, h2, h3, h4, h5, ⟨hch, hcn, h6, h9, h7, h8⟩, h10, h11, h12⟩, h13, ?_⟩
+  · rintro ⟨h1, h2, h3, h4, h5, ch, hch, h6, h7, h8, cn, hcn, h9, h10, ⟨h0, h11, h12⟩, h13, h14⟩
+    refine ⟨ch, cn, ⟨h1, h2, h3, h4, h5, ⟨hch, hcn, h6, h9, h7, h8⟩, h10, h0, h11, h12⟩, h13, ?_⟩
     by_cases hu : ch.ordering = ORDER_UNORDERED
     · left
       simp only [hu, if_true] at h14
@@ -114,49 +116,50 @@ theorem recv_v1_noop_iff (f : RecvV1) :
         · exact hlt
         · simp [hlt] at hk
       · simp [ho] at h14
-  · rintro ⟨ch, cn, ⟨h1, h2, h3, h4, h5, ⟨hch, hcn, h6, h9, h7, h8⟩, h10, h11, h12⟩, h13, h14⟩
-    refine ⟨h1, h2, h3, h4, h5, ch, hch, h6, h7, h8, cn, hcn, h9, h10, ⟨h11, h12⟩, h13, ?_⟩
+  · rintro ⟨ch, cn, ⟨h1, h2, h3, h4, h5, ⟨hch, hcn, h6, h9, h7, h8⟩, h10, h0, h11, h12⟩, h13, h14⟩
+    refine ⟨h1, h2, h3, h4, h5, ch, hch, h6, h7, h8, cn, hcn, h9, h10, ⟨h0, h11, h12⟩, h13, ?_⟩
     rcases h14 with ⟨hu, hr⟩ | ⟨ho, n, hn, hlt⟩
     · simp [hu, hr]
     · have hne : ¬ (ORDER_ORDERED = ORDER_UNORDERED) := by decide
       simp [ho, hne, hn, hlt, need]
 
 /-- everything a v2 receive checks before the receipt lookup -/
-def UnexpiredFromCounterpartyV2 (f : RecvV2) : Prop :=
+def UnexpiredFromCounterpartyV2 (f : RecvV2) (cp : CpV2) : Prop :=
   f.proofEmpty = false ∧ f.env.signerOK = true ∧ f.pkt.basic = none ∧ f.env.sigOK = true ∧ f.relayerAllowed = true ∧
-  (∃ cp, f.cp = some cp ∧ cp.clientId = f.pkt.srcClient) ∧
+  f.cp = some cp ∧ cp.clientId = f.pkt.srcClient ∧
   nowSecs f.env < f.pkt.timeout.toNat
 
 /-- **v2 success.**  Counterparty registered for the destination client and equal to the packet's source
     client, current time (seconds) strictly before the timeout, no receipt yet, client Active with a
     consensus state at the proof height, and the counterparty's store holding exactly
-    `CommitPacket(packet)` under `PacketCommitmentKey(sourceClient, sequence)`. -/
+    `CommitPacket(packet)` under `PacketCommitmentKey(sourceClient, sequence)` behind the registered
+    merkle prefix. -/
 theorem recv_v2_success_iff (f : RecvV2) :
-    recvV2 H f = .ok ↔
-      UnexpiredFromCounterpartyV2 f ∧ f.receipt = false ∧ ClientReady f.env f.client f.proof 0 0 ∧
-      f.proof.proves f.key (commitV2 H f.pkt.committed) = true := by
+    recvV2 H f = .ok ↔ ∃ cp,
+      UnexpiredFromCounterpartyV2 f cp ∧ f.receipt = false ∧ ClientReady f.env f.client f.proof 0 0 ∧
+      f.proof.proves (pathV2 cp.pre f.key) (commitV2 H f.pkt.committed) = true := by
   simp only [recvV2, check_ok, need_ok, pass_ok, Bool.not_eq_true', decide_eq_true_eq, UnexpiredFromCounterpartyV2]
   constructor
   · rintro ⟨h1, h2, h3, h4, h5, cp, hcp, h6, h7, h8⟩
     cases hr : f.receipt
     · simp only [hr, Bool.false_eq_true, if_false, pass_ok, verifyMembership_none_iff, and_true] at h8
-      exact ⟨⟨h1, h2, h3, h4, h5, ⟨cp, hcp, h6⟩, h7⟩, rfl, h8⟩
+      exact ⟨cp, ⟨h1, h2, h3, h4, h5, hcp, h6, h7⟩, rfl, h8⟩
     · simp [hr] at h8
-  · rintro ⟨⟨h1, h2, h3, h4, h5, ⟨cp, hcp, h6⟩, h7⟩, hr, h8, h9⟩
+  · rintro ⟨cp, ⟨h1, h2, h3, h4, h5, hcp, h6, h7⟩, hr, h8, h9⟩
     exact ⟨h1, h2, h3, h4, h5, cp, hcp, h6, h7, by simp [hr, (verifyMembership_none_iff _ _ _ _ _ _ _).mpr ⟨h8, h9⟩]⟩
 
 /-- **v2 NOOP.**  In v2 the receipt lookup comes *before* proof verification: an already received
     packet is answered NOOP for any (even unverifiable) proof, as long as the message is well-formed,
     from the registered counterparty and unexpired.  (No state is written and no callback runs.) -/
 theorem recv_v2_noop_iff (f : RecvV2) :
-    recvV2 H f = .noop ↔ UnexpiredFromCounterpartyV2 f ∧ f.receipt = true := by
+    recvV2 H f = .noop ↔ ∃ cp, UnexpiredFromCounterpartyV2 f cp ∧ f.receipt = true := by
   simp only [recvV2, check_noop, need_noop, pass_noop, Bool.not_eq_true', decide_eq_true_eq, UnexpiredFromCounterpartyV2]
   constructor
   · rintro ⟨h1, h2, h3, h4, h5, cp, hcp, h6, h7, h8⟩
     cases hr : f.receipt
     · simp [hr] at h8
-    · exact ⟨⟨h1, h2, h3, h4, h5, ⟨cp, hcp, h6⟩, h7⟩, rfl⟩
-  · rintro ⟨⟨h1, h2, h3, h4, h5, ⟨cp, hcp, h6⟩, h7⟩, hr⟩
+    · exact ⟨cp, ⟨h1, h2, h3, h4, h5, hcp, h6, h7⟩, rfl⟩
+  · rintro ⟨cp, ⟨h1, h2, h3, h4, h5, hcp, h6, h7⟩, hr⟩
     exact ⟨h1, h2, h3, h4, h5, cp, hcp, h6, h7, by simp [hr]⟩
 
 /-- **unexpired (v1).**  A received packet's timeout height (if set) is strictly above the chain's own
@@ -180,21 +183,30 @@ theorem recv_v1_unexpired (f : RecvV1) (h : recvV1 H f = .ok) :
     · exact Or.inl hz
     · exact Or.inr (by simpa [UInt64.not_le] using hg)
 
-/-- **what a successful v1 receive proves.**  The counterparty's store, at the proof height, holds
-    under *exactly* `PacketCommitmentKey(sourcePort, sourceChannel, sequence)` *exactly*
-    `CommitPacket(packet)`, read from an uncorrupted proof built for that height. -/
+/-- **what a successful v1 receive proves.**  The counterparty's store (the one the connection names),
+    at the proof height, holds under *exactly* `PacketCommitmentKey(sourcePort, sourceChannel, sequence)`
+    *exactly* `CommitPacket(packet)`, read from an uncorrupted proof built for that height. -/
 theorem recv_v1_proven (f : RecvV1) (h : recvV1 H f = .ok) :
     f.proof.intact = true ∧ f.proof.builtAt = f.proof.height ∧
+    (∃ cn, f.conn = some cn ∧ f.proof.store = cn.cpPrefix) ∧
     f.proof.readKey = Keys.v1Key .commitment f.pkt.srcPort f.pkt.srcChan f.pkt.seq.toNat ∧
     f.proof.provenValue = some (commitV1 H f.pkt.committed) := by
   obtain ⟨ch, cn, hp, _⟩ := (recv_v1_success_iff H f).mp h
-  exact (proves_iff _ _ _).mp hp.2.2.2.2.2.2.2.2
+  obtain ⟨a, b, c, d, e⟩ := (proves_v1_iff _ _ _ _).mp hp.2.2.2.2.2.2.2.2.2
+  exact ⟨a, b, ⟨cn, hp.2.2.2.2.2.1.2.1, c⟩, d, e⟩
 
+/-- **what a successful v2 receive proves**: with `l` the last element of the registered counterparty
+    merkle prefix (empty in practice), the store holds `CommitPacket(packet)` under
+    `l ++ PacketCommitmentKey(sourceClient, sequence)`. -/
 theorem recv_v2_proven (f : RecvV2) (h : recvV2 H f = .ok) :
     f.proof.intact = true ∧ f.proof.builtAt = f.proof.height ∧
-    f.proof.readKey = Keys.v2Key .commitment f.pkt.srcClient f.pkt.seq.toNat ∧
+    (∃ cp l, f.cp = some cp ∧ cp.pre.getLast? = some l ∧
+      f.proof.readKey = l ++ Keys.v2Key .commitment f.pkt.srcClient f.pkt.seq.toNat) ∧
     f.proof.provenValue = some (commitV2 H f.pkt.committed) := by
-  exact (proves_iff _ _ _).mp ((recv_v2_success_iff H f).mp h).2.2.2
+  obtain ⟨cp, hu, _, _, hp⟩ := (recv_v2_success_iff H f).mp h
+  obtain ⟨a, b, c, d⟩ := (proves_iff _ _ _).mp hp
+  obtain ⟨l, hl, hk⟩ := pathV2_key _ _ _ _ c
+  exact ⟨a, b, ⟨cp, l, hu.2.2.2.2.2.1, hl, hk⟩, d⟩
 
 variable (hlen : ∀ b, (H b).length = 32)
 include hlen
@@ -211,7 +223,7 @@ theorem recv_binds_packet_v1 (f : RecvV1) (h : recvV1 H f = .ok)
     (hkey : f.proof.readKey = Keys.v1Key .commitment sp sc n)
     (hval : f.proof.provenValue = some (commitV1 H q)) :
     (f.pkt.srcPort = sp ∧ f.pkt.srcChan = sc ∧ f.pkt.seq.toNat = n ∧ f.pkt.committed = q) ∨ Collision H := by
-  obtain ⟨_, _, hk, hv⟩ := recv_v1_proven H f h
+  obtain ⟨_, _, _, hk, hv⟩ := recv_v1_proven H f h
   obtain ⟨ch, cn, hp, _⟩ := (recv_v1_success_iff H f).mp h
   obtain ⟨i1, _, i3, _, _⟩ := pktV1_basic_none _ hp.2.2.1
   rw [hkey] at hk
@@ -228,7 +240,7 @@ theorem recv_v1_same_proof_same_packet (f g : RecvV1) (hp : f.proof = g.proof)
     (hf : recvV1 H f = .ok) (hg : recvV1 H g = .ok) :
     (f.pkt.srcPort = g.pkt.srcPort ∧ f.pkt.srcChan = g.pkt.srcChan ∧ f.pkt.seq = g.pkt.seq ∧
       f.pkt.data = g.pkt.data ∧ f.pkt.timeout = g.pkt.timeout) ∨ Collision H := by
-  obtain ⟨_, _, hk, hv⟩ := recv_v1_proven H g hg
+  obtain ⟨_, _, _, hk, hv⟩ := recv_v1_proven H g hg
   obtain ⟨ch, cn, hpg, _⟩ := (recv_v1_success_iff H g).mp hg
   obtain ⟨i1, _, i3, _, _⟩ := pktV1_basic_none _ hpg.2.2.1
   rcases recv_binds_packet_v1 H hlen f hf g.pkt.srcPort g.pkt.srcChan g.pkt.seq.toNat g.pkt.committed i1 i3
@@ -238,30 +250,37 @@ theorem recv_v1_same_proof_same_packet (f g : RecvV1) (hp : f.proof = g.proof)
   · exact Or.inr c
 
 /-- **recv_binds_packet (v2).**  If the entry the proof was built from was written by the counterparty
-    under `PacketCommitmentKey(sc, n)` with value `CommitPacket` of (destination client, timeout,
-    payload list) `q`, a successful receive has exactly that source client and sequence (C16) and
-    exactly that destination client, timeout and *whole ordered payload list* (C07), or a collision. -/
+    under `PacketCommitmentKey(sc, n)` (behind the same prefix element `l`) with value `CommitPacket` of
+    (destination client, timeout, payload list) `q`, a successful receive has exactly that source client
+    and sequence (C16) and exactly that destination client, timeout and *whole ordered payload list*
+    (C07), or a collision. -/
 theorem recv_binds_packet_v2 (f : RecvV2) (h : recvV2 H f = .ok)
+    (cp : CpV2) (l : Bytes) (hcp : f.cp = some cp) (hl : cp.pre.getLast? = some l)
     (sc : Bytes) (n : Nat) (q : PacketV2) (hn : n < 2^64) (hq : q.timeoutTs < 2^64)
-    (hkey : f.proof.readKey = Keys.v2Key .commitment sc n)
+    (hkey : f.proof.readKey = l ++ Keys.v2Key .commitment sc n)
     (hval : f.proof.provenValue = some (commitV2 H q)) :
     (f.pkt.srcClient = sc ∧ f.pkt.seq.toNat = n ∧ f.pkt.committed = q) ∨ Collision H := by
-  obtain ⟨_, _, hk, hv⟩ := recv_v2_proven H f h
+  obtain ⟨_, _, ⟨cp', l', hcp', hl', hk⟩, hv⟩ := recv_v2_proven H f h
+  rw [hcp] at hcp'
+  cases hcp'
+  rw [hl] at hl'
+  cases hl'
   rw [hkey] at hk
   rw [hval] at hv
-  obtain ⟨_, e1, e2⟩ := C16.v2_keys_injective _ _ _ _ _ _ hn (UInt64.toNat_lt _) hk
+  obtain ⟨_, e1, e2⟩ := C16.v2_keys_injective _ _ _ _ _ _ hn (UInt64.toNat_lt _) (List.append_cancel_left hk)
   rcases C07.v2_commitment_binds H hlen _ _ hq (UInt64.toNat_lt _) (Option.some.inj hv) with e | c
   · exact Or.inl ⟨e1.symm, e2.symm, e.symm⟩
   · exact Or.inr c
 
-/-- **one proof, one packet (v2).** -/
-theorem recv_v2_same_proof_same_packet (f g : RecvV2) (hp : f.proof = g.proof)
+/-- **one proof, one packet (v2).**  Two receive messages carrying the same proof and meeting the same
+    counterparty registration cannot both succeed unless they agree on every field. -/
+theorem recv_v2_same_proof_same_packet (f g : RecvV2) (hp : f.proof = g.proof) (hc : f.cp = g.cp)
     (hf : recvV2 H f = .ok) (hg : recvV2 H g = .ok) :
     (f.pkt.srcClient = g.pkt.srcClient ∧ f.pkt.seq = g.pkt.seq ∧ f.pkt.dstClient = g.pkt.dstClient ∧
       f.pkt.timeout = g.pkt.timeout ∧ f.pkt.payloads = g.pkt.payloads) ∨ Collision H := by
-  obtain ⟨_, _, hk, hv⟩ := recv_v2_proven H g hg
-  rcases recv_binds_packet_v2 H hlen f hf g.pkt.srcClient g.pkt.seq.toNat g.pkt.committed (UInt64.toNat_lt _)
-    (UInt64.toNat_lt _) (hp ▸ hk) (hp ▸ hv) with ⟨e1, e2, e3⟩ | c
+  obtain ⟨_, _, ⟨cp, l, hcp, hl, hk⟩, hv⟩ := recv_v2_proven H g hg
+  rcases recv_binds_packet_v2 H hlen f hf cp l (hc ▸ hcp) hl g.pkt.srcClient g.pkt.seq.toNat g.pkt.committed
+    (UInt64.toNat_lt _) (UInt64.toNat_lt _) (hp ▸ hk) (hp ▸ hv) with ⟨e1, e2, e3⟩ | c
   · obtain ⟨e4, e5, e6⟩ := committedV2_inj _ _ e3
     exact Or.inl ⟨e1, UInt64.toNat_inj.mp e2, e4, e5, e6⟩
   · exact Or.inr c
@@ -286,7 +305,7 @@ theorem recv_v1_mutant_rejected (hlen : ∀ b, (H b).length = 32) (hnc : ¬ Coll
   | noop =>
     obtain ⟨ch, cn, hp, _⟩ := (recv_v1_noop_iff H f).mp hv
     obtain ⟨i1, _, i3, _, _⟩ := pktV1_basic_none _ hp.2.2.1
-    obtain ⟨_, _, hk, hv'⟩ := (proves_iff _ _ _).mp hp.2.2.2.2.2.2.2.2
+    obtain ⟨_, _, _, hk, hv'⟩ := (proves_v1_iff _ _ _ _).mp hp.2.2.2.2.2.2.2.2.2
     rw [hkey] at hk
     rw [hval] at hv'
     obtain ⟨_, e1, e2, e3⟩ := C16.v1_keys_injective _ _ _ _ _ _ _ _ hsp hsc i1 i3 hk
@@ -304,10 +323,11 @@ example :
     let c1 := strBytes "channel-1".toList
     let pkt : PktV1 := ⟨1, mock, c0, mock, c1, [1, 2, 3], ⟨⟨1, 100⟩, 0⟩⟩
     let S : Bytes → Bytes := fun b => (b ++ List.replicate 32 0).take 32   -- a toy 32-byte "hash"
-    let prf : ProofFacts := ⟨⟨1, 55⟩, ⟨1, 55⟩, true, Keys.v1Key .commitment mock c0 1, some (commitV1 S pkt.committed)⟩
+    let ibc := strBytes "ibc".toList
+    let prf : ProofFacts := ⟨⟨1, 55⟩, ⟨1, 55⟩, true, ibc, Keys.v1Key .commitment mock c0 1, some (commitV1 S pkt.committed)⟩
     let cl : ClientFacts := ⟨true, ⟨1, 60⟩, none, none, true, true⟩
     let f : Bool → PktV1 → Height → RecvV1 := fun rc p self =>
-      ⟨p, false, ⟨true, true, self, 1000⟩, true, some ⟨3, 1, mock, c0⟩, some ⟨3, 0⟩, cl, prf, 30000000000, 0, rc, none⟩
+      ⟨p, false, ⟨true, true, self, 1000⟩, true, some ⟨3, 1, mock, c0⟩, some ⟨3, 0, ibc⟩, cl, prf, 30000000000, 0, rc, none⟩
     recvV1 S (f false pkt ⟨1, 50⟩) = .ok ∧ recvV1 S (f true pkt ⟨1, 50⟩) = .noop ∧
       recvV1 S (f false { pkt with data := [1, 2, 4] } ⟨1, 50⟩) = .err .proof ∧
       recvV1 S (f false pkt ⟨1, 100⟩) = .err .timeout := by
